@@ -30,7 +30,11 @@ def bodyName (x : String) : Bool :=
   isUser x || x == "#value" || x == "#yield" || x == "#receive"
     || "#loop_".toList.isPrefixOf x.toList || "#endloop_".toList.isPrefixOf x.toList
 
-structure InvKit (env : Env W HS) (P : St W HS → Prop) (Q : Val → Prop) : Prop where
+structure InvKitN (env : Env W HS) (P : St W HS → Prop) (Q : Val → Prop) (N : String → Prop) : Prop where
+  nUser : ∀ x, isUser x = true → N x
+  nValue : N "#value"
+  nYield : N "#yield"
+  nReceive : N "#receive"
   int : ∀ n, Q (.int n)
   str : ∀ s, Q (.str s)
   noneV : Q .noneV
@@ -69,12 +73,16 @@ structure InvKit (env : Env W HS) (P : St W HS → Prop) (Q : Val → Prop) : Pr
       ∧ ResQ Q (fun vals => ∀ x ∈ vals, Q x) (env.host.bindStmt src args st.w).1
   setLoc : ∀ st x v, P st → Q v → P (updLoc st x (some v))
   unsetLoc : ∀ st x, P st → P (updLoc st x none)
-  interact : ∀ st name key ann v ovr, P st → bodyName name = true → (v = .absent ∨ Q v) →
+  interact : ∀ st name key ann v ovr, P st → N name → (v = .absent ∨ Q v) →
     P (interactSem env name key ann v ovr st).2 ∧ ResQ Q Q (interactSem env name key ann v ovr st).1
   yield : ∀ st y, P st → Q y → P (doYield env y st).2 ∧ ResQ Q Q (doYield env y st).1
   pushCur : ∀ st e, P st → Q e → P { st with cur := e :: st.cur }
   popCur : ∀ st, P st → P { st with cur := st.cur.tail }
   curQ : ∀ st e, P st → e ∈ st.cur → Q e
+
+/-- the kit for the names the body of a function may issue (loop markers included) -/
+abbrev InvKit (env : Env W HS) (P : St W HS → Prop) (Q : Val → Prop) : Prop :=
+  InvKitN env P Q (fun x => bodyName x = true)
 
 /-- `m` keeps the invariant and answers within `QA` -/
 def InvM {α} (P : St W HS → Prop) (Q : Val → Prop) (QA : α → Prop) (m : M W HS α) : Prop :=
@@ -84,7 +92,7 @@ def InvX (P : St W HS → Prop) (Q : Val → Prop) (a : Exec W HS) : Prop :=
   ∀ st, P st → P (a st).2 ∧ CtlQ Q (a st).1
 
 section
-variable {P : St W HS → Prop} {Q : Val → Prop}
+variable {P : St W HS → Prop} {Q : Val → Prop} {N : String → Prop}
 
 theorem invM_pure {α} (QA : α → Prop) (a : α) (h : QA a) : InvM P Q QA (pure a) := fun _ hp => ⟨hp, h⟩
 
@@ -120,7 +128,7 @@ theorem invM_liftW {α} (QA : α → Prop) (f : W → Res α × W)
   rw [hfw] at this
   exact this
 
-theorem invM_lookup {env : Env W HS} (kit : InvKit env P Q) (x : String) (hx : isUser x = true) :
+theorem invM_lookup {env : Env W HS} (kit : InvKitN env P Q N) (x : String) (hx : isUser x = true) :
     InvM P Q Q (lookup env x) := by
   intro st hp
   unfold lookup
@@ -128,10 +136,10 @@ theorem invM_lookup {env : Env W HS} (kit : InvKit env P Q) (x : String) (hx : i
   | none => exact ⟨hp, Or.inr (kit.nameError x)⟩
   | some v => exact ⟨hp, kit.look st x v hx hp hl⟩
 
-theorem invM_setLoc {env : Env W HS} (kit : InvKit env P Q) (x : String) (v : Val) (hv : Q v) :
+theorem invM_setLoc {env : Env W HS} (kit : InvKitN env P Q N) (x : String) (v : Val) (hv : Q v) :
     InvM P Q (fun _ => True) (setLoc x (some v)) := fun st hp => ⟨kit.setLoc st x v hp hv, trivial⟩
 
-theorem invM_hook {env : Env W HS} (kit : InvKit env P Q) (name : String) (hn : bodyName name = true)
+theorem invM_hook {env : Env W HS} (kit : InvKitN env P Q N) (name : String) (hn : N name)
     (ann : Option Ann) (v : Val) (hv : Q v) (keyed : Bool) (key : Val) :
     InvM P Q Q (hook env name ann v keyed key) := by
   unfold hook
@@ -153,7 +161,7 @@ theorem bodyName_endloop (x : String) : bodyName ("#endloop_" ++ x) = true := by
     simp [String.toList_append]
   simp [bodyName, this]
 
-theorem invM_hookMeta {env : Env W HS} (kit : InvKit env P Q) (name : String) (hn : bodyName name = true)
+theorem invM_hookMeta {env : Env W HS} (kit : InvKitN env P Q N) (name : String) (hn : N name)
     (ann : Option Ann) (v : Val) (hv : Q v) : InvM P Q (fun _ => True) (hookMeta env name ann v) := by
   unfold hookMeta
   cases env.hk with
@@ -165,15 +173,15 @@ theorem invM_hookMeta {env : Env W HS} (kit : InvKit env P Q) (name : String) (h
         fun _ _ => invM_pure _ _ trivial
     · exact invM_pure _ _ trivial
 
-theorem invM_hookMetas {env : Env W HS} (kit : InvKit env P Q) (ann : Option Ann) :
-    (xs : List String) → (∀ x ∈ xs, bodyName x = true) → InvM P Q (fun _ => True) (hookMetas env ann xs)
+theorem invM_hookMetas {env : Env W HS} (kit : InvKitN env P Q N) (ann : Option Ann) :
+    (xs : List String) → (∀ x ∈ xs, N x) → InvM P Q (fun _ => True) (hookMetas env ann xs)
   | [], _ => by simp only [hookMetas]; exact invM_pure _ _ trivial
   | x :: xs, h => by
     simp only [hookMetas]
     exact invM_bind (invM_hookMeta kit x (h x (by simp)) ann _ (kit.bool true)) fun _ _ =>
       invM_hookMetas kit ann xs fun y hy => h y (by simp [hy])
 
-theorem invM_postBind1 {env : Env W HS} (kit : InvKit env P Q) (x : String) (hx : isUser x = true) :
+theorem invM_postBind1 {env : Env W HS} (kit : InvKitN env P Q N) (x : String) (hx : isUser x = true) :
     InvM P Q (fun _ => True) (postBind1 env x) := by
   unfold postBind1
   cases env.hk with
@@ -181,9 +189,9 @@ theorem invM_postBind1 {env : Env W HS} (kit : InvKit env P Q) (x : String) (hx 
   | some cfg =>
     simp only
     exact invM_bind (invM_lookup kit x hx) fun v hv =>
-      invM_bind (invM_hook kit x (by simp [bodyName, hx]) none v hv false .noneV) fun r hr => invM_setLoc kit x r hr
+      invM_bind (invM_hook kit x (kit.nUser _ hx) none v hv false .noneV) fun r hr => invM_setLoc kit x r hr
 
-theorem invM_postBind {env : Env W HS} (kit : InvKit env P Q) :
+theorem invM_postBind {env : Env W HS} (kit : InvKitN env P Q N) :
     (xs : List String) → (∀ x ∈ xs, isUser x = true) → InvM P Q (fun _ => True) (postBind env xs)
   | [], _ => by simp only [postBind]; exact invM_pure _ _ trivial
   | x :: xs, h => by
@@ -195,7 +203,7 @@ end
 /-! ## expressions and targets -/
 
 mutual
-theorem invE {env : Env W HS} {P : St W HS → Prop} {Q : Val → Prop} (kit : InvKit env P Q) :
+theorem invE {env : Env W HS} {P : St W HS → Prop} {Q : Val → Prop} {N : String → Prop} (kit : InvKitN env P Q N) :
     (e : Expr) → coreE e = true → InvM P Q Q (evalE env e)
   | .int n, _ => by simp only [evalE]; exact invM_pure _ _ (kit.int n)
   | .str s, _ => by simp only [evalE]; exact invM_pure _ _ (kit.str s)
@@ -237,22 +245,22 @@ theorem invE {env : Env W HS} {P : St W HS → Prop} {Q : Val → Prop} (kit : I
     simp only [coreE, Bool.and_eq_true] at h
     simp only [evalE]
     exact invM_bind (invE kit v h.2) fun x hx =>
-      invM_bind (invM_hook kit t (by simp [bodyName, h.1]) none x hx false .noneV) fun r hr =>
+      invM_bind (invM_hook kit t (kit.nUser _ h.1) none x hx false .noneV) fun r hr =>
         invM_bind (invM_setLoc kit t r hr) fun _ _ => invM_pure _ _ hr
   | .yield v, h => by
     cases v with
     | none =>
       simp only [evalE, pure_bind_M]
-      exact invM_bind (invM_hook kit "#yield" (by decide) (some exitAnn) .noneV kit.noneV false .noneV) fun y hy =>
+      exact invM_bind (invM_hook kit "#yield" kit.nYield (some exitAnn) .noneV kit.noneV false .noneV) fun y hy =>
         invM_bind (fun st hp => kit.yield st y hp hy) fun r hr =>
-          invM_hook kit "#receive" (by decide) (some enterAnn) r hr false .noneV
+          invM_hook kit "#receive" kit.nReceive (some enterAnn) r hr false .noneV
     | some e0 =>
       simp only [coreE] at h
       simp only [evalE]
       exact invM_bind (invE kit e0 h) fun x hx =>
-        invM_bind (invM_hook kit "#yield" (by decide) (some exitAnn) x hx false .noneV) fun y hy =>
+        invM_bind (invM_hook kit "#yield" kit.nYield (some exitAnn) x hx false .noneV) fun y hy =>
           invM_bind (fun st hp => kit.yield st y hp hy) fun r hr =>
-            invM_hook kit "#receive" (by decide) (some enterAnn) r hr false .noneV
+            invM_hook kit "#receive" kit.nReceive (some enterAnn) r hr false .noneV
   | .interact .., h => by simp [coreE] at h
   | .opaque src loads s0 a0, h => by
     simp only [coreE, List.all_eq_true] at h
@@ -264,7 +272,7 @@ theorem invE {env : Env W HS} {P : St W HS → Prop} {Q : Val → Prop} (kit : I
       obtain ⟨x, hx, rfl⟩ := hpm
       exact kit.look st x v (h x hx) hp hv
     exact kit.opaqueE st src _ hp hargs
-theorem invEL {env : Env W HS} {P : St W HS → Prop} {Q : Val → Prop} (kit : InvKit env P Q) :
+theorem invEL {env : Env W HS} {P : St W HS → Prop} {Q : Val → Prop} {N : String → Prop} (kit : InvKitN env P Q N) :
     (es : List Expr) → coreEL es = true → InvM P Q (fun vs => ∀ v ∈ vs, Q v) (evalEL env es)
   | [], _ => by simp only [evalEL]; exact invM_pure _ _ (fun v hv => by simp at hv)
   | e :: es, h => by
@@ -279,7 +287,7 @@ theorem invEL {env : Env W HS} {P : St W HS → Prop} {Q : Val → Prop} (kit : 
 end
 
 mutual
-theorem invT {env : Env W HS} {P : St W HS → Prop} {Q : Val → Prop} (kit : InvKit env P Q) :
+theorem invT {env : Env W HS} {P : St W HS → Prop} {Q : Val → Prop} {N : String → Prop} (kit : InvKitN env P Q N) :
     (t : Target) → coreT t = true → ∀ v, Q v → InvM P Q (fun _ => True) (storeT env t v)
   | .name x, _, v, hv => by simp only [storeT]; exact invM_setLoc kit x v hv
   | .tuple ts, h, v, hv => by
@@ -309,7 +317,7 @@ theorem invT {env : Env W HS} {P : St W HS → Prop} {Q : Val → Prop} (kit : I
     simp only [storeT]
     exact invM_bind (invE kit e h.1.1.1) fun o ho => invM_bind (invE kit i h.1.2) fun k hk =>
       invM_liftW _ _ fun st hp => kit.setitem st o k v hp ho hk hv
-theorem invTL {env : Env W HS} {P : St W HS → Prop} {Q : Val → Prop} (kit : InvKit env P Q) :
+theorem invTL {env : Env W HS} {P : St W HS → Prop} {Q : Val → Prop} {N : String → Prop} (kit : InvKitN env P Q N) :
     (ts : List Target) → coreTL ts = true → ∀ items, (∀ v ∈ items, Q v) →
     InvM P Q (fun _ => True) (storeTL env ts items)
   | [], _, items, _ => by simp only [storeTL]; exact invM_pure _ _ trivial
@@ -360,6 +368,10 @@ theorem invTL {env : Env W HS} {P : St W HS → Prop} {Q : Val → Prop} (kit : 
         invTL kit ts h.2 vs (fun u hu => hi u (by simp [hu]))
 end
 
+theorem bodyName_marks (x : String) :
+    (fun y => bodyName y = true) ("#loop_" ++ x) ∧ (fun y => bodyName y = true) ("#endloop_" ++ x) :=
+  ⟨bodyName_loop x, bodyName_endloop x⟩
+
 end Ptera.Sem
 
 namespace Ptera.Sem
@@ -368,7 +380,7 @@ open Ptera.Py
 variable {W HS : Type}
 
 section
-variable {P : St W HS → Prop} {Q : Val → Prop}
+variable {P : St W HS → Prop} {Q : Val → Prop} {N : String → Prop}
 
 theorem invX_done (k : Ctl) (hk : CtlQ Q k) : InvX P Q (done k) := fun _ hp => ⟨hp, hk⟩
 
@@ -462,7 +474,7 @@ theorem invX_whileLoop (fuel : Nat) {cd : M W HS Bool} {b o : Exec W HS}
       rw [hast] at h1
       cases k <;> first | exact ih st1 h1.1 | exact ⟨h1.1, trivial⟩ | exact h1
 
-theorem invX_withBlock {env : Env W HS} (kit : InvKit env P Q) (cm : Val) (hcm : Q cm) {b : Exec W HS}
+theorem invX_withBlock {env : Env W HS} (kit : InvKitN env P Q N) (cm : Val) (hcm : Q cm) {b : Exec W HS}
     (hb : InvX P Q b) : InvX P Q (withBlock env cm b) := by
   intro st hp
   have h1 := hb st hp
@@ -494,7 +506,7 @@ theorem invX_withBlock {env : Env W HS} (kit : InvKit env P Q) (cm : Val) (hcm :
     | ok bb => exact ⟨this.1, h1.2⟩
     | err e' => exact ⟨this.1, this.2⟩
 
-theorem invX_inHandler {env : Env W HS} (kit : InvKit env P Q) (e : Val) (he : Q e) (name : Option String)
+theorem invX_inHandler {env : Env W HS} (kit : InvKitN env P Q N) (e : Val) (he : Q e) (name : Option String)
     {b : Exec W HS} (hb : InvX P Q b) : InvX P Q (inHandler e name b) := by
   intro st hp
   unfold inHandler
@@ -519,14 +531,14 @@ end
 
 /-! ## statements -/
 
-theorem invM_assignT {env : Env W HS} {P : St W HS → Prop} {Q : Val → Prop} (kit : InvKit env P Q) (t : Target)
+theorem invM_assignT {env : Env W HS} {P : St W HS → Prop} {Q : Val → Prop} {N : String → Prop} (kit : InvKitN env P Q N) (t : Target)
     (ht : coreAssignT t = true) (ann : Option Ann) (v : Val) (hv : Q v) :
     InvM P Q (fun _ => True) (assignT env t ann v) := by
   cases t with
   | name x =>
     simp only [coreAssignT] at ht
     show InvM P Q _ (hook env x ann v >>= fun r => setLoc x (some r))
-    exact invM_bind (invM_hook kit x (by simp [bodyName, ht]) ann v hv false .noneV) fun r hr => invM_setLoc kit x r hr
+    exact invM_bind (invM_hook kit x (kit.nUser _ ht) ann v hv false .noneV) fun r hr => invM_setLoc kit x r hr
   | tuple ts =>
     simp only [coreAssignT] at ht
     show InvM P Q _ (storeT env (.tuple ts) v >>= fun _ => postBind env (Target.tuple ts).names)
@@ -543,7 +555,7 @@ theorem invM_assignT {env : Env W HS} {P : St W HS → Prop} {Q : Val → Prop} 
     · obtain ⟨b, rfl⟩ := hname
       simp only [coreAssignT] at ht
       show InvM P Q _ (hook env b ann v true (keyVal "attr" (.str a)) >>= fun r => storeT env (.attr (.name b) a) r)
-      exact invM_bind (invM_hook kit b (by simp [bodyName, ht]) ann v hv true _) fun r hr =>
+      exact invM_bind (invM_hook kit b (kit.nUser _ ht) ann v hv true _) fun r hr =>
         invT kit (.attr (.name b) a) (by simp [coreT, coreE, simpleE, ht]) r hr
     · have hn : ∀ b, e ≠ .name b := fun b hb => hname ⟨b, hb⟩
       have ht' : coreT (.attr e a) = true := by
@@ -559,7 +571,7 @@ theorem invM_assignT {env : Env W HS} {P : St W HS → Prop} {Q : Val → Prop} 
           hook env b ann v true (keyVal "index" k) >>= fun r => lookup env b >>= fun o =>
           liftW (env.host.setitem o k r)) :=
         invM_bind (invE kit i hci) fun k hk =>
-          invM_bind (invM_hook kit b (by simp [bodyName, hb]) ann v hv true _) fun r hr =>
+          invM_bind (invM_hook kit b (kit.nUser _ hb) ann v hv true _) fun r hr =>
             invM_bind (invM_lookup kit b hb) fun o ho =>
               invM_liftW _ _ fun st hp => kit.setitem st o k r hp ho hk hr
       by_cases hon : hookOn env b (annTags ann) true = true
@@ -578,7 +590,7 @@ theorem invM_assignT {env : Env W HS} {P : St W HS → Prop} {Q : Val → Prop} 
       rw [assignT_sub_other env e i ann v hn]
       exact invT kit (.sub e i) ht' v hv
 
-theorem invM_assignTs {env : Env W HS} {P : St W HS → Prop} {Q : Val → Prop} (kit : InvKit env P Q) :
+theorem invM_assignTs {env : Env W HS} {P : St W HS → Prop} {Q : Val → Prop} {N : String → Prop} (kit : InvKitN env P Q N) :
     (ts : List Target) → coreAssignTL ts = true → ∀ v, Q v → InvM P Q (fun _ => True) (assignTs env v ts)
   | [], _, v, _ => by simp only [assignTs]; exact invM_pure _ _ trivial
   | t :: ts, h, v, hv => by
@@ -586,7 +598,7 @@ theorem invM_assignTs {env : Env W HS} {P : St W HS → Prop} {Q : Val → Prop}
     simp only [assignTs]
     exact invM_bind (invM_assignT kit t h.1 none v hv) fun _ _ => invM_assignTs kit ts h.2 v hv
 
-theorem invM_forM_setLoc {env : Env W HS} {P : St W HS → Prop} {Q : Val → Prop} (kit : InvKit env P Q) :
+theorem invM_forM_setLoc {env : Env W HS} {P : St W HS → Prop} {Q : Val → Prop} {N : String → Prop} (kit : InvKitN env P Q N) :
     (l : List (String × Val)) → (∀ p ∈ l, Q p.2) →
     InvM P Q (fun _ => True) (l.forM fun (x, v) => (setLoc x (some v) : M W HS Unit))
   | [], _ => by simp only [List.forM_nil]; exact invM_pure _ _ trivial
@@ -596,7 +608,8 @@ theorem invM_forM_setLoc {env : Env W HS} {P : St W HS → Prop} {Q : Val → Pr
       invM_forM_setLoc kit l fun p hp => h p (by simp [hp])
 
 mutual
-theorem invS {env : Env W HS} {P : St W HS → Prop} {Q : Val → Prop} (kit : InvKit env P Q) (fuel : Nat) :
+theorem invS {env : Env W HS} {P : St W HS → Prop} {Q : Val → Prop} {N : String → Prop} (kit : InvKitN env P Q N)
+    (hL : ∀ x, N ("#loop_" ++ x) ∧ N ("#endloop_" ++ x)) (fuel : Nat) :
     (s : Stmt) → coreS s = true → InvX P Q (execS env fuel s)
   | .assign ts v, h => by
     simp only [coreS, Bool.and_eq_true] at h
@@ -652,7 +665,7 @@ theorem invS {env : Env W HS} {P : St W HS → Prop} {Q : Val → Prop} (kit : I
         | some cfg =>
           simp only
           refine invX_stepM (QA := fun _ => True) ?_ fun _ _ => invX_done _ trivial
-          exact invM_bind (QA := Q) (fun st hp => kit.interact st x .noneV _ .absent true hp (by simp [bodyName, hu]) (Or.inl rfl))
+          exact invM_bind (QA := Q) (fun st hp => kit.interact st x .noneV _ .absent true hp (kit.nUser _ hu) (Or.inl rfl))
             fun r hr => invM_setLoc kit x r hr
     | tuple ts => simp at h
     | list ts => simp at h
@@ -669,12 +682,12 @@ theorem invS {env : Env W HS} {P : St W HS → Prop} {Q : Val → Prop} (kit : I
     cases v with
     | none =>
       simp only [pure_bind_M]
-      exact invX_stepM (invM_hook kit "#value" (by decide) none .noneV kit.noneV false .noneV) fun r hr => invX_done _ hr
+      exact invX_stepM (invM_hook kit "#value" kit.nValue none .noneV kit.noneV false .noneV) fun r hr => invX_done _ hr
     | some e =>
       simp only
       refine invX_stepM (QA := Q) ?_ fun r hr => invX_done _ hr
       exact invM_bind (invE kit e (by simpa [coreOptE] using h)) fun x hx =>
-        invM_hook kit "#value" (by decide) none x hx false .noneV
+        invM_hook kit "#value" kit.nValue none x hx false .noneV
   | .pass, _ => by simp only [execS]; exact invX_done _ trivial
   | .brk, _ => by simp only [execS]; exact invX_done _ trivial
   | .cont, _ => by simp only [execS]; exact invX_done _ trivial
@@ -698,12 +711,12 @@ theorem invS {env : Env W HS} {P : St W HS → Prop} {Q : Val → Prop} (kit : I
     · unfold truthyE
       exact invM_bind (invE kit cnd h.1.1) fun v hv => invM_liftW _ _ fun st hp => kit.truthy st v hp hv
     · cases t
-      · simpa using invB kit fuel o h.2
-      · simpa using invB kit fuel b h.1.2
+      · simpa using invB kit hL fuel o h.2
+      · simpa using invB kit hL fuel b h.1.2
   | .while cnd b o, h => by
     simp only [coreS, Bool.and_eq_true] at h
     simp only [execS]
-    refine invX_whileLoop fuel ?_ (invB kit fuel b h.1.2) (invB kit fuel o h.2)
+    refine invX_whileLoop fuel ?_ (invB kit hL fuel b h.1.2) (invB kit hL fuel o h.2)
     unfold truthyE
     exact invM_bind (invE kit cnd h.1.1) fun v hv => invM_liftW _ _ fun st hp => kit.truthy st v hp hv
   | .for t it b o, h => by
@@ -711,23 +724,23 @@ theorem invS {env : Env W HS} {P : St W HS → Prop} {Q : Val → Prop} (kit : I
     simp only [execS]
     refine invX_stepM (QA := fun items => ∀ v ∈ items, Q v) ?_ fun items hitems => ?_
     · exact invM_bind (invE kit it h.1.1.2) fun v hv => invM_liftW _ _ fun st hp => kit.iter st v hp hv
-    · refine invX_forLoop items (fun item hitem => ?_) hitems (invB kit fuel o h.2)
+    · refine invX_forLoop items (fun item hitem => ?_) hitems (invB kit hL fuel o h.2)
       refine invX_stepM (invT kit t h.1.1.1 item hitem) fun _ _ => ?_
       refine invX_tryFinally ?_ ?_
-      · refine invX_stepM (QA := fun _ => True) ?_ fun _ _ => invB kit fuel b h.1.2
+      · refine invX_stepM (QA := fun _ => True) ?_ fun _ _ => invB kit hL fuel b h.1.2
         exact invM_bind (invM_hookMetas kit none _ (fun x hx => by
             simp only [List.mem_map] at hx
             obtain ⟨y, _, rfl⟩ := hx
-            exact bodyName_loop y)) fun _ _ => invM_postBind kit _ (coreT_names_user t h.1.1.1)
+            exact (hL y).1)) fun _ _ => invM_postBind kit _ (coreT_names_user t h.1.1.1)
       · exact invX_stepM (invM_hookMetas kit none _ (fun x hx => by
             simp only [List.mem_map] at hx
             obtain ⟨y, _, rfl⟩ := hx
-            exact bodyName_endloop y)) fun _ _ => invX_done _ trivial
+            exact (hL y).2)) fun _ _ => invX_done _ trivial
   | .try b hds o f, h => by
     simp only [coreS, Bool.and_eq_true] at h
     simp only [execS]
-    exact invX_tryFinally (invX_tryExcept (invB kit fuel b h.1.1.1) (fun e he => invHL kit fuel hds h.1.1.2 e he)
-      (invB kit fuel o h.1.2)) (invB kit fuel f h.2)
+    exact invX_tryFinally (invX_tryExcept (invB kit hL fuel b h.1.1.1) (fun e he => invHL kit hL fuel hds h.1.1.2 e he)
+      (invB kit hL fuel o h.1.2)) (invB kit hL fuel f h.2)
   | .with ctx t b, h => by
     simp only [coreS, Bool.and_eq_true] at h
     simp only [execS]
@@ -739,11 +752,11 @@ theorem invS {env : Env W HS} {P : St W HS → Prop} {Q : Val → Prop} (kit : I
       cases t with
       | none =>
         simp only [stepM_pure]
-        exact invB kit fuel b h.2
+        exact invB kit hL fuel b h.2
       | some t =>
         have ht : coreT t = true := by simpa [coreOptT] using h.1.2
         simp only
-        refine invX_stepM (QA := fun _ => True) ?_ fun _ _ => invB kit fuel b h.2
+        refine invX_stepM (QA := fun _ => True) ?_ fun _ _ => invB kit hL fuel b h.2
         exact invM_bind (invT kit t ht v hp.2) fun _ _ => invM_postBind kit _ (coreT_names_user t ht)
   | .defn name src loads, h => by
     simp only [coreS, Bool.and_eq_true, List.all_eq_true] at h
@@ -794,20 +807,22 @@ theorem invS {env : Env W HS} {P : St W HS → Prop} {Q : Val → Prop} (kit : I
   | .glob _, h => by simp [coreS] at h
   | .nonloc _, h => by simp [coreS] at h
   | .opaque .., h => by simp [coreS] at h
-theorem invB {env : Env W HS} {P : St W HS → Prop} {Q : Val → Prop} (kit : InvKit env P Q) (fuel : Nat) :
+theorem invB {env : Env W HS} {P : St W HS → Prop} {Q : Val → Prop} {N : String → Prop} (kit : InvKitN env P Q N)
+    (hL : ∀ x, N ("#loop_" ++ x) ∧ N ("#endloop_" ++ x)) (fuel : Nat) :
     (ss : List Stmt) → coreB ss = true → InvX P Q (execB env fuel ss)
   | [], _ => by simp only [execB_nil]; exact invX_done _ trivial
   | s :: ss, h => by
     simp only [coreB, Bool.and_eq_true] at h
     simp only [execB_cons]
-    exact invX_seqX (invS kit fuel s h.1) (invB kit fuel ss h.2)
-theorem invHL {env : Env W HS} {P : St W HS → Prop} {Q : Val → Prop} (kit : InvKit env P Q) (fuel : Nat) :
+    exact invX_seqX (invS kit hL fuel s h.1) (invB kit hL fuel ss h.2)
+theorem invHL {env : Env W HS} {P : St W HS → Prop} {Q : Val → Prop} {N : String → Prop} (kit : InvKitN env P Q N)
+    (hL : ∀ x, N ("#loop_" ++ x) ∧ N ("#endloop_" ++ x)) (fuel : Nat) :
     (hds : List Handler) → coreHL hds = true → ∀ e, Q e → InvX P Q (execHL env fuel hds e)
   | [], _, e, he => by simp only [execHL]; exact invX_done _ (Or.inr he)
   | .mk typ name body :: hds, h, e, he => by
     simp only [coreHL, coreH, Bool.and_eq_true] at h
-    have ihb := invB kit fuel body h.1.2
-    have ihh := invHL kit fuel hds h.2 e he
+    have ihb := invB kit hL fuel body h.1.2
+    have ihh := invHL kit hL fuel hds h.2 e he
     have hte : ∀ te, typ = some te → coreE te = true := by
       intro te ht; subst ht
       have := h.1.1.1
@@ -853,7 +868,7 @@ variable {W HS : Type}
 
 /-! ## the prologue of a call -/
 
-theorem invM_fetchRef {env : Env W HS} {P : St W HS → Prop} {Q : Val → Prop} (kit : InvKit env P Q) (x : String)
+theorem invM_fetchRef {env : Env W HS} {P : St W HS → Prop} {Q : Val → Prop} {N : String → Prop} (kit : InvKitN env P Q N) (x : String)
     (hx : isUser x = true) (hglob : ∀ v, env.host.glob x = some v → Q v) :
     InvM P Q (fun _ => True) (fetchRef env x) := by
   cases hk : env.hk with
@@ -879,7 +894,7 @@ theorem invM_fetchRef {env : Env W HS} {P : St W HS → Prop} {Q : Val → Prop}
         | none => exact Or.inl rfl
         | some v => exact Or.inr (hglob v hg)
       have h1 := kit.interact st x .noneV (annValOpt env none) ((env.host.glob x).getD .absent) true hp
-        (by simp [bodyName, hx]) hv
+        (kit.nUser _ hx) hv
       dsimp only
       rcases hi : interactSem env x .noneV (annValOpt env none) ((env.host.glob x).getD .absent) true st with ⟨r, st1⟩
       rw [hi] at h1
@@ -897,7 +912,7 @@ theorem invM_fetchRef {env : Env W HS} {P : St W HS → Prop} {Q : Val → Prop}
     · have hf : fetchRef env x = pure () := by unfold fetchRef; simp [hk, hi0]
       rw [hf]; exact invM_pure _ _ trivial
 
-theorem invM_fetchRefs {env : Env W HS} {P : St W HS → Prop} {Q : Val → Prop} (kit : InvKit env P Q) :
+theorem invM_fetchRefs {env : Env W HS} {P : St W HS → Prop} {Q : Val → Prop} {N : String → Prop} (kit : InvKitN env P Q N) :
     (xs : List String) → (∀ x ∈ xs, isUser x = true ∧ ∀ v, env.host.glob x = some v → Q v) →
     InvM P Q (fun _ => True) (fetchRefs env xs)
   | [], _ => by simp only [fetchRefs]; exact invM_pure _ _ trivial
@@ -906,7 +921,7 @@ theorem invM_fetchRefs {env : Env W HS} {P : St W HS → Prop} {Q : Val → Prop
     exact invM_bind (invM_fetchRef kit x (h x (by simp)).1 (h x (by simp)).2) fun _ _ =>
       invM_fetchRefs kit xs fun y hy => h y (by simp [hy])
 
-theorem invM_paramHooks {env : Env W HS} {P : St W HS → Prop} {Q : Val → Prop} (kit : InvKit env P Q) :
+theorem invM_paramHooks {env : Env W HS} {P : St W HS → Prop} {Q : Val → Prop} {N : String → Prop} (kit : InvKitN env P Q N) :
     (ps : List Param) → (∀ p ∈ ps, isUser p.name = true) → InvM P Q (fun _ => True) (paramHooks env ps)
   | [], _ => by simp only [paramHooks]; exact invM_pure _ _ trivial
   | p :: ps, h => by
@@ -919,7 +934,7 @@ theorem invM_paramHooks {env : Env W HS} {P : St W HS → Prop} {Q : Val → Pro
       simp only
       have hu := h p (by simp)
       exact invM_bind (invM_lookup kit p.name hu) fun v hv =>
-        invM_bind (invM_hook kit p.name (by simp [bodyName, hu]) p.ann v hv false .noneV) fun r hr =>
+        invM_bind (invM_hook kit p.name (kit.nUser _ hu) p.ann v hv false .noneV) fun r hr =>
           invM_setLoc kit p.name r hr
 
 /-- the part of an activation between `#enter` and `#error` / `#exit`: globals, parameters, body -/
@@ -927,13 +942,14 @@ def runInner (env : Env W HS) (fuel : Nat) (f : FunDef) : Exec W HS :=
   seqX (stepM (do fetchRefs env (sortNames (collect f).external); paramHooks env f.params) fun _ => done .normal)
     (execB env fuel (bodyWithReturn f))
 
-theorem inv_runInner {env : Env W HS} {P : St W HS → Prop} {Q : Val → Prop} (kit : InvKit env P Q) (fuel : Nat)
+theorem inv_runInner {env : Env W HS} {P : St W HS → Prop} {Q : Val → Prop} {N : String → Prop} (kit : InvKitN env P Q N)
+    (hL : ∀ x, N ("#loop_" ++ x) ∧ N ("#endloop_" ++ x)) (fuel : Nat)
     (f : FunDef) (hf : coreF f = true) (hglob : ∀ x v, isUser x = true → env.host.glob x = some v → Q v) :
     InvX P Q (runInner env fuel f) := by
   simp only [coreF, Bool.and_eq_true, List.all_eq_true] at hf
   obtain ⟨⟨⟨⟨⟨hbody, hau⟩, heu⟩, _⟩, _⟩, hparam⟩ := hf
   unfold runInner
-  refine invX_seqX (invX_stepM (QA := fun _ => True) ?_ fun _ _ => invX_done _ trivial) (invB kit fuel _ hbody)
+  refine invX_seqX (invX_stepM (QA := fun _ => True) ?_ fun _ _ => invX_done _ trivial) (invB kit hL fuel _ hbody)
   exact invM_bind (invM_fetchRefs kit _ fun x hx =>
       ⟨heu x ((mem_sortNames x _).1 hx), fun v hv => hglob x v (heu x ((mem_sortNames x _).1 hx)) hv⟩) fun _ _ =>
     invM_paramHooks kit f.params fun p hp => hau p.name (List.contains_iff_mem.1 (hparam p hp))
